@@ -288,6 +288,17 @@ func (c *Ctx) operatorWithDepth(f *ssa.Function, n int) (ret string, why string)
 				return v.s[len("errname:"):], ""
 			}
 		}
+		// the name is a constant of type Name (not the value of a package-level variable): the
+		// field of the error value whose type is Name holds it
+		if st, ok := c.typeObj("postscript", "postScriptError").Type().Underlying().(*types.Struct); ok {
+			for i := 0; i < st.NumFields(); i++ {
+				if typeIsNamed(st.Field(i).Type(), c.typeObj("postscript", "Name")) {
+					if v, ok := ev.mem[r.s+"."+st.Field(i).Name()]; ok && v.k == svString {
+						return v.s, ""
+					}
+				}
+			}
+		}
 	}
 	return "?", ""
 }
@@ -770,4 +781,854 @@ func (c *Ctx) systemDictIsolation() {
 		}
 	}
 	c.check(len(missing) == 0, "OP-REGISTRY", fname, "the composite data entries are bound where the system dictionary is built", mk.Pos(), "5 entries inspected", "the place where these entries receive their composite value was not found: "+strings.Join(missing, ", "))
+}
+
+// ---- the names of the error dictionary (OP-REGISTRY)
+
+// errorDictNames: the names NewInterpreter enters into a dictionary from a package-level list of
+// names (it ranges over a package-level variable of type []Name and uses the element as the key of
+// a map update).  The list is read from the package initialiser; its elements may be constants or
+// package-level variables initialised with constants.  found=false: no such list.
+func (c *Ctx) errorDictNames() (names []string, found bool) {
+	mk := c.fnOpt("postscript", "NewInterpreter")
+	if mk == nil {
+		return nil, false
+	}
+	nameT := c.typeObj("postscript", "Name")
+	lists := map[*ssa.Global]bool{}
+	var order []*ssa.Global
+	c.eachInstrDeep(mk, 2, func(ins ssa.Instruction) {
+		mu, ok := ins.(*ssa.MapUpdate)
+		if !ok {
+			return
+		}
+		k := origin(mu.Key)
+		if mi, ok := k.(*ssa.MakeInterface); ok {
+			k = origin(mi.X)
+		}
+		var src ssa.Value
+		switch x := k.(type) {
+		case *ssa.Extract: // range over the list: next(range(list))
+			if nx, ok := x.Tuple.(*ssa.Next); ok {
+				if rg, ok := nx.Iter.(*ssa.Range); ok {
+					src = rg.X
+				}
+			}
+		case *ssa.UnOp: // indexed loop: list[i]
+			if ixa, ok := x.X.(*ssa.IndexAddr); ok && x.Op == token.MUL {
+				src = ixa.X
+			}
+		}
+		if src == nil {
+			return
+		}
+		if g := globalLoad(src); g != nil {
+			if sl, ok := g.Type().(*types.Pointer).Elem().Underlying().(*types.Slice); ok && typeIsNamed(sl.Elem(), nameT) && !lists[g] {
+				lists[g] = true
+				order = append(order, g)
+			}
+		}
+	})
+	for _, g := range order {
+		vals, ok := globalSliceInit(g)
+		if !ok {
+			return nil, false
+		}
+		for _, v := range vals {
+			names = append(names, c.nameConst(v))
+		}
+	}
+	return names, len(order) > 0
+}
+
+// globalSliceInit: the elements of the slice literal a package-level variable is initialised with.
+func globalSliceInit(g *ssa.Global) ([]ssa.Value, bool) {
+	init := g.Pkg.Func("init")
+	if init == nil {
+		return nil, false
+	}
+	var out []ssa.Value
+	ok := false
+	eachInstr(init, func(ins ssa.Instruction) {
+		st, isSt := ins.(*ssa.Store)
+		if !isSt || st.Addr != ssa.Value(g) {
+			return
+		}
+		sl, isSl := st.Val.(*ssa.Slice)
+		if !isSl {
+			return
+		}
+		al, isAl := sl.X.(*ssa.Alloc)
+		if !isAl {
+			return
+		}
+		at, isArr := al.Type().(*types.Pointer).Elem().Underlying().(*types.Array)
+		if !isArr {
+			return
+		}
+		elems := make([]ssa.Value, at.Len())
+		for _, r := range *al.Referrers() {
+			ixa, isIx := r.(*ssa.IndexAddr)
+			if !isIx {
+				continue
+			}
+			i, isC := constInt(ixa.Index)
+			if !isC || i < 0 || i >= at.Len() {
+				continue
+			}
+			for _, rr := range *ixa.Referrers() {
+				if s2, isS := rr.(*ssa.Store); isS && s2.Addr == ssa.Value(ixa) {
+					elems[i] = s2.Val
+				}
+			}
+		}
+		for _, e := range elems {
+			if e == nil {
+				return
+			}
+		}
+		out, ok = elems, true
+	})
+	return out, ok
+}
+
+// ---- overflow promotion of the arithmetic operators (OP-OVERFLOW)
+
+// arithOnIntegers evaluates a registered operator on the SSA form with the given Integer operands
+// (concrete values, below them one object about which nothing is known) and returns what the
+// operator leaves on the operand stack in place of its operands.  Helpers are evaluated in place;
+// whether the overflow is predicted before the operation or detected on the wrapped result, by
+// comparisons, by division or in a helper, makes no difference: only the object pushed counts.
+func (c *Ctx) arithOnIntegers(f *ssa.Function, bits int, operands ...int64) (res sv, why string) {
+	ev := &ssaEval{c: c, bind: map[ssa.Value]sv{}, mem: map[string]sv{}, intBits: bits}
+	intT := c.typeObj("postscript", "Integer").Type()
+	st := []sv{symV("keep")}
+	for _, x := range operands {
+		st = append(st, sv{k: svInt, i: x, typ: intT})
+	}
+	ev.mem["intp.Stack"] = ev.newList(st)
+	ev.call = func(call ssa.CallInstruction, args []sv) (sv, bool) {
+		if call != nil || len(args) != 2 || !strings.HasPrefix(args[0].s, "typeassert:") {
+			return sv{}, false
+		}
+		want := args[0].s[len("typeassert:"):]
+		v := args[1]
+		if v.typ != nil && v.typ.String() == want {
+			v.typ = nil // unboxed: the static type of the register says what it is
+			return sv{k: svTuple, tup: []sv{v, boolV(true)}}, true
+		}
+		if v.typ == nil {
+			return sv{}, false
+		}
+		zero := sv{k: svNil}
+		if tn, ok := c.pkg("postscript").Types.Scope().Lookup(want[strings.LastIndex(want, ".")+1:]).(*types.TypeName); ok && tn.Type().String() == want {
+			if z, ok := aZeroSV(tn.Type()); ok {
+				zero = z
+			}
+		}
+		return sv{k: svTuple, tup: []sv{zero, boolV(false)}}, true
+	}
+	ret := ev.runFunc(f, []sv{{k: svAddr, s: "intp"}})
+	if ev.why != "" {
+		return sv{}, ev.why
+	}
+	if len(ret) != 1 || ret[0].k != svNil {
+		return sv{}, "the operator does not return nil for integer operands"
+	}
+	el, ok := ev.elems(ev.mem["intp.Stack"])
+	if !ok || len(el) != 2 || el[0].s != "keep" {
+		return sv{}, "the operator does not replace its operands by one result (operand stack " + ev.render(ev.mem["intp.Stack"]) + ")"
+	}
+	return el[1], ""
+}
+
+// overflowByEvaluation: add, sub, mul over all pairs of boundary operands (min, min+1, −2…2,
+// max−1, max) and abs over the same values: where the exact result is representable the operator
+// must push it as an Integer, where it is not it must push a Real close to the exact result (never
+// the wrapped integer).
+func (c *Ctx) overflowByEvaluation(reg *registry) {
+	intObj := c.typeObj("postscript", "Integer")
+	realObj := c.typeObj("postscript", "Real")
+	bits := uint(8 * c.pkg("postscript").TypesSizes.Sizeof(intObj.Type()))
+	lo := int64(-1) << (bits - 1)
+	hi := -(lo + 1)
+	vals := []int64{lo, lo + 1, -2, -1, 0, 1, 2, hi - 1, hi}
+	minI, maxI := big.NewInt(lo), big.NewInt(hi)
+	// judge compares what was pushed with the exact result
+	judge := func(got sv, exact *big.Int) string {
+		overflow := exact.Cmp(minI) < 0 || exact.Cmp(maxI) > 0
+		isInt := got.k == svInt && got.typ != nil && typeIsNamed(got.typ, intObj)
+		isReal := got.k == svFloat && got.typ != nil && typeIsNamed(got.typ, realObj)
+		switch {
+		case !overflow && isInt && big.NewInt(got.i).Cmp(exact) == 0:
+			return ""
+		case !overflow:
+			return fmt.Sprintf("the exact result %s is representable but %s is pushed", exact, describeObj(got))
+		case isReal:
+			ex, _ := new(big.Float).SetInt(exact).Float64()
+			d := got.f - ex
+			if d < 0 {
+				d = -d
+			}
+			if ex < 0 {
+				ex = -ex
+			}
+			if d <= ex/(1<<40) {
+				return ""
+			}
+			return fmt.Sprintf("the exact result %s is not representable and the real pushed (%v) is not close to it", exact, got.f)
+		case isInt:
+			return fmt.Sprintf("the exact result %s is not representable as an integer but the integer %d is left on the stack instead of a real", exact, got.i)
+		}
+		return fmt.Sprintf("the exact result %s is not representable and %s is pushed instead of a real", exact, describeObj(got))
+	}
+	for _, op := range []struct {
+		name string
+		tok  token.Token
+	}{{"add", token.ADD}, {"sub", token.SUB}, {"mul", token.MUL}} {
+		f := reg.op("systemdict", op.name)
+		fname := c.fname(f)
+		bad, cells, overflows := "", 0, 0
+		for _, a := range vals {
+			for _, b := range vals {
+				cells++
+				exact := new(big.Int)
+				switch op.tok {
+				case token.ADD:
+					exact.Add(big.NewInt(a), big.NewInt(b))
+				case token.SUB:
+					exact.Sub(big.NewInt(a), big.NewInt(b))
+				case token.MUL:
+					exact.Mul(big.NewInt(a), big.NewInt(b))
+				}
+				if exact.Cmp(minI) < 0 || exact.Cmp(maxI) > 0 {
+					overflows++
+				}
+				got, why := c.arithOnIntegers(f, int(bits), a, b)
+				if why != "" {
+					if bad == "" {
+						bad = fmt.Sprintf("for %d %d %s the evaluation stops: %s", a, b, op.name, why)
+					}
+					continue
+				}
+				if msg := judge(got, exact); msg != "" && bad == "" {
+					bad = fmt.Sprintf("for %d %d %s %s", a, b, op.name, msg)
+				}
+			}
+		}
+		c.check(bad == "", "OP-OVERFLOW", fname, op.name+": integer overflow is detected exactly (and promoted to real)", f.Pos(), fmt.Sprintf("%d boundary operand pairs evaluated (%d overflowing)", cells, overflows), op.name+": "+bad+" — the wrapped integer would be left on the stack instead of a real")
+	}
+	{
+		f := reg.op("systemdict", "abs")
+		bad := ""
+		for _, a := range vals {
+			exact := new(big.Int).Abs(big.NewInt(a))
+			got, why := c.arithOnIntegers(f, int(bits), a)
+			if why != "" {
+				if bad == "" {
+					bad = fmt.Sprintf("for %d abs the evaluation stops: %s", a, why)
+				}
+				continue
+			}
+			if msg := judge(got, exact); msg != "" && bad == "" {
+				bad = fmt.Sprintf("for %d abs %s", a, msg)
+			}
+		}
+		c.check(bad == "", "OP-OVERFLOW", c.fname(f), "abs: the most negative integer is promoted to a real", f.Pos(), fmt.Sprintf("%d boundary operands evaluated", len(vals)), "abs: "+bad+" (the negation of the most negative integer overflows)")
+	}
+}
+
+func describeObj(v sv) string {
+	t := "?"
+	if v.typ != nil {
+		t = v.typ.String()
+		t = t[strings.LastIndex(t, ".")+1:]
+	}
+	return fmt.Sprintf("%s (%s)", v.String(), t)
+}
+
+// ---- closures made and called in one function
+
+// closureTargets: the closures a function value may be, when every possibility is a closure made
+// in the same function (a nil function value is skipped: calling it does not return).
+func closureTargets(v ssa.Value) []*ssa.MakeClosure {
+	var out []*ssa.MakeClosure
+	seen := map[ssa.Value]bool{}
+	ok := true
+	var walk func(v ssa.Value)
+	walk = func(v ssa.Value) {
+		v = origin(v)
+		if seen[v] {
+			return
+		}
+		seen[v] = true
+		switch x := v.(type) {
+		case *ssa.MakeClosure:
+			if _, isFn := x.Fn.(*ssa.Function); isFn {
+				out = append(out, x)
+			} else {
+				ok = false
+			}
+		case *ssa.Phi:
+			for _, e := range x.Edges {
+				walk(e)
+			}
+		case *ssa.Const:
+			if x.Value != nil {
+				ok = false
+			}
+		case *ssa.UnOp:
+			// a local variable holding the function value: everything stored into it
+			al, isAl := x.X.(*ssa.Alloc)
+			if x.Op != token.MUL || !isAl {
+				ok = false
+				return
+			}
+			for _, r := range *al.Referrers() {
+				switch y := r.(type) {
+				case *ssa.Store:
+					if y.Addr != ssa.Value(al) {
+						ok = false
+					} else {
+						walk(y.Val)
+					}
+				case *ssa.UnOp, *ssa.DebugRef:
+				default:
+					ok = false
+				}
+			}
+		default:
+			ok = false
+		}
+	}
+	walk(v)
+	if !ok {
+		return nil
+	}
+	return out
+}
+
+// capturedValue: the value (in the enclosing function) of a variable captured by closure mc and
+// read there through the load ld of a free variable, provided the variable is assigned exactly
+// once and no closure writes it.
+func capturedValue(mc *ssa.MakeClosure, ld ssa.Value) ssa.Value {
+	u, ok := ld.(*ssa.UnOp)
+	if !ok || u.Op != token.MUL {
+		return nil
+	}
+	fv, ok := u.X.(*ssa.FreeVar)
+	if !ok {
+		return nil
+	}
+	fn := mc.Fn.(*ssa.Function)
+	for i, f := range fn.FreeVars {
+		if f == fv && i < len(mc.Bindings) {
+			if al, ok := mc.Bindings[i].(*ssa.Alloc); ok {
+				return singleStore(al)
+			}
+		}
+	}
+	return nil
+}
+
+// closureSlice: a call of a closure that returns (boxed) a two-bound slice x[lo:hi] of a captured
+// value; lo, hi and x are values of the calling function.
+type closureSlice struct {
+	lo, hi, x ssa.Value
+}
+
+// closureSlices describes what a call of a locally made closure slices: one entry per closure that
+// may be called and per slice expression in it whose bounds are parameters of the closure and
+// whose operand is a captured variable that is assigned once.  nil if the callee is not such a
+// closure (or one of the possible callees is not).
+func closureSlices(call *ssa.Call) []closureSlice {
+	if call.Call.IsInvoke() {
+		return nil
+	}
+	targets := closureTargets(call.Call.Value)
+	var out []closureSlice
+	for _, mc := range targets {
+		fn := mc.Fn.(*ssa.Function)
+		arg := func(v ssa.Value) ssa.Value {
+			v = origin(v)
+			for i, p := range fn.Params {
+				if ssa.Value(p) == v && i < len(call.Call.Args) {
+					return call.Call.Args[i]
+				}
+			}
+			return nil
+		}
+		n := 0
+		bad := false
+		eachInstr(fn, func(ins ssa.Instruction) {
+			sl, ok := ins.(*ssa.Slice)
+			if !ok || sl.Low == nil || sl.High == nil {
+				return
+			}
+			lo, hi, x := arg(sl.Low), arg(sl.High), capturedValue(mc, sl.X)
+			if lo == nil || hi == nil || x == nil {
+				bad = true
+				return
+			}
+			n++
+			out = append(out, closureSlice{lo, hi, x})
+		})
+		if bad || n == 0 {
+			return nil
+		}
+	}
+	return out
+}
+
+// freeVarValues: the values (in the enclosing function) that a captured variable read through the
+// load ld may have: one per closure instance made of the function; nil if the variable is not
+// assigned exactly once or is written by a closure.
+func freeVarValues(ld *ssa.UnOp) []ssa.Value {
+	fv, ok := ld.X.(*ssa.FreeVar)
+	if !ok || ld.Op != token.MUL {
+		return nil
+	}
+	fn := fv.Parent()
+	par := fn.Parent()
+	if par == nil {
+		return nil
+	}
+	var out []ssa.Value
+	bad := false
+	eachInstr(par, func(ins ssa.Instruction) {
+		if mc, ok := ins.(*ssa.MakeClosure); ok && mc.Fn == ssa.Value(fn) {
+			if v := capturedValue(mc, ld); v != nil {
+				out = append(out, v)
+			} else {
+				bad = true
+			}
+		}
+	})
+	if bad {
+		return nil
+	}
+	return out
+}
+
+// ---- where executeOne dispatches (CTL-BODYELEM)
+
+// objAndFlagArgs: the object (first argument of interface type) and the execute flag (first
+// argument of type bool) of a call of executeOne or of the function that does its work.
+func objAndFlagArgs(call ssa.CallInstruction) (obj, flag ssa.Value) {
+	for _, a := range call.Common().Args {
+		switch t := a.Type().Underlying().(type) {
+		case *types.Interface:
+			if obj == nil {
+				obj = a
+			}
+		case *types.Basic:
+			if t.Kind() == types.Bool && flag == nil {
+				flag = a
+			}
+		}
+	}
+	return obj, flag
+}
+
+// dispatchFunction: the function in which an object is dispatched (the one that counts the
+// operation in Interpreter.NumOps): executeOne, or a module function that executeOne calls with
+// its own object and execute-flag parameters passed on unchanged (executeOne keeping only some
+// bookkeeping of its own).  If no such function is found executeOne is returned and the caller
+// reports the missing dispatch header.
+func (c *Ctx) dispatchFunction(ia *interpAnchors) *ssa.Function {
+	counts := func(f *ssa.Function) bool {
+		found := false
+		eachInstr(f, func(ins ssa.Instruction) {
+			if st, ok := ins.(*ssa.Store); ok && isFieldAddr(st.Addr, ia.T, "NumOps") {
+				found = true
+			}
+		})
+		return found
+	}
+	fn := ia.executeOne
+	for depth := 0; depth < 3; depth++ {
+		if counts(fn) {
+			return fn
+		}
+		var next *ssa.Function
+		n := 0
+		eachInstr(fn, func(ins ssa.Instruction) {
+			call, ok := ins.(ssa.CallInstruction)
+			if !ok {
+				return
+			}
+			g := call.Common().StaticCallee()
+			if g == nil || !c.inModule(g) || len(g.Blocks) == 0 || g == ia.e || g == fn || g == ia.executeOne {
+				return
+			}
+			obj, flag := objAndFlagArgs(call)
+			if obj == nil || flag == nil {
+				return
+			}
+			po, isP1 := origin(obj).(*ssa.Parameter)
+			pf, isP2 := origin(flag).(*ssa.Parameter)
+			if !isP1 || !isP2 || po.Parent() != fn || pf.Parent() != fn {
+				return
+			}
+			n++
+			next = g
+		})
+		if n != 1 {
+			break
+		}
+		fn = next
+	}
+	return ia.executeOne
+}
+
+// ---- name look-up walks the dictionary stack from the top (CTL-LOOKUP)
+
+// lookupOutcome: what `load` / `where` does for a dictionary stack of n dictionaries of which
+// those in present contain the key.
+type lookupOutcome struct {
+	ret   string // returned error: "nil" or "error:<name>"
+	val   string // load: the value returned; where: the operand stack afterwards
+	why   string
+	calls int
+}
+
+// lookupEval evaluates f (the method load, or the operator where when isOp) on the SSA form with a
+// dictionary stack [d0 … d(n-1)] whose dictionaries are opaque: a look-up of the key in d_i
+// answers (val@i, true) if present[i], (nil, false) otherwise.  The walk may be an index loop, a
+// range loop over a reversed copy or a library iterator (slices.Backward, slices.All, …, evaluated
+// from their source): only the look-ups made and the result count.
+func (c *Ctx) lookupEval(ia *interpAnchors, f *ssa.Function, isOp bool, present []bool) lookupOutcome {
+	var o lookupOutcome
+	ev := &ssaEval{c: c, bind: map[ssa.Value]sv{}, mem: map[string]sv{}}
+	var ds []sv
+	for i := range present {
+		ds = append(ds, symV(fmt.Sprintf("Dict:d%d", i)))
+	}
+	ev.mem["intp.DictStack"] = ev.newList(ds)
+	key := obj("Name", "k")
+	ev.mem["intp.Stack"] = ev.newList([]sv{obj("Integer", "keep"), key})
+	ev.noInline = func(g *ssa.Function) bool { return g == ia.executeOne || (isOp && g == ia.load) }
+	ev.inlineLib = func(g *ssa.Function) bool {
+		for g.Parent() != nil {
+			g = g.Parent()
+		}
+		if og := g.Origin(); og != nil {
+			g = og
+		}
+		return g.Pkg != nil && g.Pkg.Pkg.Path() == "slices" && g.Object() != nil && (g.Object().Name() == "Backward" || g.Object().Name() == "All" || g.Object().Name() == "Values")
+	}
+	ev.maxDepth = 6
+	ev.load = func(ld *ssa.UnOp, addr sv) (sv, bool) {
+		// a local variable (new T) that has not been assigned yet holds the zero value
+		if addr.k == svAddr && strings.HasPrefix(addr.s, "cell") && !strings.ContainsAny(addr.s, ".[") {
+			return aZeroSV(ld.Type())
+		}
+		return sv{}, false
+	}
+	ev.lookup = func(x *ssa.Lookup, m, k sv) (sv, bool) {
+		if m.k != svSym || !strings.HasPrefix(m.s, "Dict:d") || k.String() != key.String() {
+			return sv{}, false
+		}
+		var i int
+		fmt.Sscanf(m.s, "Dict:d%d", &i)
+		o.calls++
+		val, ok := sv{k: svNil}, false
+		if i >= 0 && i < len(present) && present[i] {
+			val, ok = symV(fmt.Sprintf("val@%d", i)), true
+		}
+		if !x.CommaOk {
+			return val, true
+		}
+		return sv{k: svTuple, tup: []sv{val, boolV(ok)}}, true
+	}
+	typeOf := func(v sv) string {
+		if i := strings.Index(v.s, ":"); v.k == svSym && i > 0 {
+			return v.s[:i]
+		}
+		return ""
+	}
+	ev.call = func(call ssa.CallInstruction, args []sv) (sv, bool) {
+		if call == nil {
+			if len(args) == 2 && strings.HasPrefix(args[0].s, "typeassert:") && typeOf(args[1]) != "" {
+				want := args[0].s[len("typeassert:"):]
+				want = want[strings.LastIndex(want, ".")+1:]
+				if typeOf(args[1]) == want {
+					return sv{k: svTuple, tup: []sv{args[1], boolV(true)}}, true
+				}
+				zero := sv{k: svNil}
+				if want == "Name" || want == "Operator" || want == "String" {
+					zero = sv{k: svString}
+				}
+				return sv{k: svTuple, tup: []sv{zero, boolV(false)}}, true
+			}
+			return sv{}, false
+		}
+		if cc := call.Common(); cc.StaticCallee() == ia.e && len(cc.Args) > 1 {
+			return symV("error:" + c.nameConst(cc.Args[1])), true
+		}
+		return sv{}, false
+	}
+	ev.oracle = func(op token.Token, x, y sv) (bool, bool) {
+		if (x.k == svSym || x.k == svNil) && (y.k == svSym || y.k == svNil) {
+			eq := x.String() == y.String()
+			switch op {
+			case token.EQL:
+				return eq, true
+			case token.NEQ:
+				return !eq, true
+			}
+		}
+		return false, false
+	}
+	args := []sv{{k: svAddr, s: "intp"}}
+	if !isOp {
+		args = append(args, key)
+	}
+	ret := ev.runFunc(f, args)
+	o.why = ev.why
+	if len(ret) == 0 {
+		if o.why == "" {
+			o.why = "no return reached"
+		}
+		return o
+	}
+	o.ret = ret[len(ret)-1].String()
+	if isOp {
+		o.val = ev.render(ev.mem["intp.Stack"])
+	} else if len(ret) == 2 {
+		o.val = ret[0].String()
+	}
+	return o
+}
+
+// lookupByEvaluation decides CTL-LOOKUP for load / where over every dictionary stack of 1 to 4
+// dictionaries and every subset of them that contains the key: the topmost dictionary that has
+// the key must win, and the key that is nowhere must give `undefined` (load) / false (where).
+// decided=false: an evaluation stopped; the caller falls back to the shape of the scan.
+func (c *Ctx) lookupByEvaluation(ia *interpAnchors, f *ssa.Function, isOp bool) (bad []string, cells int, decided bool) {
+	for n := 1; n <= 4; n++ {
+		for mask := 0; mask < 1<<n; mask++ {
+			present := make([]bool, n)
+			top := -1
+			var in []string
+			for i := 0; i < n; i++ {
+				if mask&(1<<i) != 0 {
+					present[i] = true
+					top = i
+					in = append(in, fmt.Sprintf("d%d", i))
+				}
+			}
+			cells++
+			o := c.lookupEval(ia, f, isOp, present)
+			if o.why != "" {
+				return []string{o.why}, cells, false
+			}
+			var wantRet, wantVal string
+			switch {
+			case isOp && top >= 0:
+				wantRet, wantVal = "nil", fmt.Sprintf("[Integer:keep Dict:d%d true]", top)
+			case isOp:
+				wantRet, wantVal = "nil", "[Integer:keep false]"
+			case top >= 0:
+				wantRet, wantVal = "nil", fmt.Sprintf("val@%d", top)
+			default:
+				wantRet, wantVal = "error:undefined", "nil"
+			}
+			if o.ret != wantRet || o.val != wantVal {
+				bad = append(bad, fmt.Sprintf("with a dictionary stack d0…d%d (top last) and the name defined in [%s]: result %s / %s, expected %s / %s", n-1, strings.Join(in, " "), o.val, o.ret, wantVal, wantRet))
+			}
+		}
+	}
+	return bad, cells, true
+}
+
+// ---- bind (CTL-BIND)
+
+// bindByEvaluation evaluates the registered operator `bind` on the SSA form (its worker and the
+// name look-up evaluated in place) on a procedure that contains one element of every kind that
+// matters, with a dictionary stack [systemdict userdict] whose contents the table fixes:
+//
+//	/a      systemdict: operator add                         → replaced by the operator
+//	b       (an operator token) systemdict: operator sub     → replaced by the operator
+//	/c      systemdict: operator c, userdict: a procedure    → the look-up from the top finds the
+//	                                                            procedure: the name stays
+//	/d      defined nowhere                                  → stays
+//	/e      userdict: an integer                             → stays
+//	7       not a name                                       → stays
+//	{a {…}} a nested procedure that contains the outer one   → bound likewise, once
+//
+// Whether the worker recurses or keeps a work list, is a method or a function, calls `load` or
+// walks the dictionary stack itself does not matter: only the final contents of the procedures
+// count.  decided=false: the evaluation stopped (why says where).
+func (c *Ctx) bindByEvaluation(ia *interpAnchors) (bad []string, decided bool, why string) {
+	e := c.registry().byKey["systemdict/bind"]
+	if e == nil || e.fn == nil {
+		return nil, false, "the operator bind is not registered"
+	}
+	ev := &ssaEval{c: c, bind: map[ssa.Value]sv{}, mem: map[string]sv{}, makeLists: true, maxDepth: 10}
+	opTok := func(s string) sv { return sv{k: svString, s: s, op: "Operator"} }
+	inner := ev.newList([]sv{obj("Name", "a"), {}})
+	inner.op = "Procedure"
+	outer := ev.newList([]sv{obj("Name", "a"), opTok("b"), obj("Name", "c"), obj("Name", "d"), obj("Name", "e"), obj("Integer", "7"), inner})
+	outer.op = "Procedure"
+	ev.lists[inner.s][1] = outer
+	ev.mem["intp.Stack"] = ev.newList([]sv{obj("Integer", "keep"), outer})
+	sysD, userD := obj("Dict", "systemdict"), obj("Dict", "userdict")
+	ev.mem["intp.DictStack"] = ev.newList([]sv{sysD, userD})
+	ev.mem["intp.SystemDict"] = sysD
+	ev.mem["intp.UserDict"] = userD
+	content := map[string]map[string]sv{
+		sysD.s:  {"a": obj("builtin", "add"), "b": obj("builtin", "sub"), "c": obj("builtin", "c")},
+		userD.s: {"c": obj("Procedure", "userc"), "e": obj("Integer", "1")},
+	}
+	keyName := func(k sv) (string, bool) {
+		switch {
+		case k.k == svSym && strings.HasPrefix(k.s, "Name:"):
+			return k.s[len("Name:"):], true
+		case k.k == svString:
+			return k.s, true
+		}
+		return "", false
+	}
+	ev.lookup = func(x *ssa.Lookup, m, k sv) (sv, bool) {
+		if d, ok := content[m.s]; ok && m.k == svSym {
+			name, isName := keyName(k)
+			if !isName {
+				return sv{}, false
+			}
+			val, present := d[name]
+			if !present {
+				val = sv{k: svNil}
+			}
+			if !x.CommaOk {
+				return val, true
+			}
+			return sv{k: svTuple, tup: []sv{val, boolV(present)}}, true
+		}
+		if m.k == svSym && strings.HasPrefix(m.s, "fresh") {
+			// a map made during the evaluation: what was entered is in it
+			in := false
+			for _, ef := range ev.effects {
+				if ef.what == "mapupdate" && ef.addr == m.String() && len(ef.args) == 2 && ev.render(ef.args[0]) == ev.render(k) {
+					in = !(ef.args[1].k == svBool && !ef.args[1].b)
+				}
+			}
+			if !x.CommaOk {
+				if bt, ok := x.Type().Underlying().(*types.Basic); ok && bt.Info()&types.IsBoolean != 0 {
+					return boolV(in), true
+				}
+				return sv{}, false
+			}
+			return sv{k: svTuple, tup: []sv{boolV(in), boolV(in)}}, true
+		}
+		return sv{}, false
+	}
+	typeOf := func(v sv) string {
+		if v.k == svList || v.k == svString {
+			return v.op
+		}
+		if i := strings.Index(v.s, ":"); v.k == svSym && i > 0 {
+			return v.s[:i]
+		}
+		return ""
+	}
+	ev.noInline = func(g *ssa.Function) bool { return g == ia.executeOne }
+	ev.inlineLib = func(g *ssa.Function) bool {
+		for g.Parent() != nil {
+			g = g.Parent()
+		}
+		if og := g.Origin(); og != nil {
+			g = og
+		}
+		return g.Pkg != nil && g.Pkg.Pkg.Path() == "slices" && g.Object() != nil && (g.Object().Name() == "Backward" || g.Object().Name() == "All" || g.Object().Name() == "Values")
+	}
+	ev.load = func(ld *ssa.UnOp, addr sv) (sv, bool) {
+		if addr.k == svAddr && strings.HasPrefix(addr.s, "cell") && !strings.ContainsAny(addr.s, ".[") {
+			return aZeroSV(ld.Type())
+		}
+		return sv{}, false
+	}
+	ev.call = func(call ssa.CallInstruction, args []sv) (sv, bool) {
+		if call == nil {
+			if len(args) == 2 && strings.HasPrefix(args[0].s, "typeassert:") && (typeOf(args[1]) != "" || args[1].k == svNil) {
+				want := args[0].s[len("typeassert:"):]
+				want = want[strings.LastIndex(want, ".")+1:]
+				if typeOf(args[1]) == want {
+					return sv{k: svTuple, tup: []sv{args[1], boolV(true)}}, true
+				}
+				zero := sv{k: svNil}
+				if want == "Name" || want == "Operator" || want == "String" {
+					zero = sv{k: svString}
+				}
+				return sv{k: svTuple, tup: []sv{zero, boolV(false)}}, true
+			}
+			return sv{}, false
+		}
+		if cc := call.Common(); cc.StaticCallee() == ia.e && len(cc.Args) > 1 {
+			return symV("error:" + c.nameConst(cc.Args[1])), true
+		}
+		return sv{}, false
+	}
+	ev.oracle = func(op token.Token, x, y sv) (bool, bool) {
+		if (x.k == svSym || x.k == svNil || x.k == svAddr) && (y.k == svSym || y.k == svNil || y.k == svAddr) {
+			eq := x.String() == y.String()
+			switch op {
+			case token.EQL:
+				return eq, true
+			case token.NEQ:
+				return !eq, true
+			}
+		}
+		return false, false
+	}
+	ret := ev.runFunc(e.fn, []sv{{k: svAddr, s: "intp"}})
+	if ev.why != "" || len(ret) != 1 {
+		w := ev.why
+		if w == "" {
+			w = "no return reached"
+		}
+		return nil, false, w
+	}
+	if ret[0].k != svNil {
+		bad = append(bad, "bind on a procedure returns "+ret[0].String()+" instead of nil")
+	}
+	{
+		// the operand stays on the stack: [keep outer] (the procedures are cyclic: not rendered)
+		st, ok := ev.elems(ev.mem["intp.Stack"])
+		if !ok || len(st) != 2 || st[1].k != svList || st[1].s != outer.s {
+			bad = append(bad, fmt.Sprintf("bind does not leave its operand on the stack (%d objects afterwards)", len(st)))
+		}
+	}
+	show := func(l sv) []string {
+		var out []string
+		el, _ := ev.elems(l)
+		for _, x := range el {
+			switch {
+			case x.k == svList && x.s == outer.s:
+				out = append(out, "{outer}")
+			case x.k == svList && x.s == inner.s:
+				out = append(out, "{inner}")
+			default:
+				out = append(out, x.String())
+			}
+		}
+		return out
+	}
+	wantOuter := []string{"builtin:add", "builtin:sub", "Name:c", "Name:d", "Name:e", "Integer:7", "{inner}"}
+	wantInner := []string{"builtin:add", "{outer}"}
+	what := []string{"the name a (an operator in systemdict)", "the operator token b", "the name c (an operator in systemdict, redefined as a procedure in userdict)", "the name d (defined nowhere)", "the name e (an integer in userdict)", "the integer 7", "the nested procedure"}
+	gotOuter, gotInner := show(outer), show(inner)
+	if len(gotOuter) != len(wantOuter) {
+		bad = append(bad, fmt.Sprintf("the procedure has %d elements after bind, %d before", len(gotOuter), len(wantOuter)))
+	} else {
+		for i := range wantOuter {
+			if gotOuter[i] != wantOuter[i] {
+				bad = append(bad, fmt.Sprintf("%s becomes %s, expected %s", what[i], gotOuter[i], wantOuter[i]))
+			}
+		}
+	}
+	if fmt.Sprint(gotInner) != fmt.Sprint(wantInner) {
+		bad = append(bad, fmt.Sprintf("the nested procedure {a {outer}} becomes %v, expected %v", gotInner, wantInner))
+	}
+	return bad, true, ""
 }
